@@ -39,7 +39,11 @@ def wf_shortcut():
     return W.Workflow([W.T("C", ["src"], ["c"], spec="echo C\n"), W.T("B", ["c"], ["b"], spec="echo B\n"), W.T("X", ["b", "c"], ["x"], spec="echo X\n")])
 
 
-WORKFLOWS = {"shortcut": wf_shortcut, "fork": wf_fork, "chain": wf_chain, "diamond": wf_diamond, "pair": wf_pair}
+def wf_twocomp():
+    return W.Workflow([W.T("A", ["src"], ["a"], spec="echo A\n"), W.T("B", ["a"], ["b"], spec="echo B\n"), W.T("X", ["src2"], ["x"], spec="echo X\n")])
+
+
+WORKFLOWS = {"twocomp": wf_twocomp, "shortcut": wf_shortcut, "fork": wf_fork, "chain": wf_chain, "diamond": wf_diamond, "pair": wf_pair}
 
 SUBMIT_EXE = {"slurm": "sbatch", "sge": "qsub", "lsf": "bsub"}
 
@@ -71,6 +75,10 @@ def init_world(wfname, backend="slurm", hashing=False, fresh=False, accounting=T
         conf["backend.slurm.accounting_enabled"] = False
     if clean_logs is not None:
         conf["clean_logs"] = clean_logs
+    if backend == "local":
+        from mc import localbridge
+
+        return W.World(wf, files=files, conf=conf, hashes=hashes, sim=None, pool=localbridge.new_pool(cores=2))
     sim = simsched.new_state(backend, accounting=accounting)
     return W.World(wf, files=files, conf=conf, hashes=hashes, sim=sim)
 
@@ -92,6 +100,10 @@ def latest_job(world, name):
 def job_class(world, name):
     """Reference backend state word of target `name`: class of the scheduler's state of its latest accepted job,
     as the scheduler can report it."""
+    if world.backend() == "local":
+        from mc import localbridge
+
+        return localbridge.job_class(world.pool, name)
     j = latest_job(world, name)
     if j is None:
         return "unknown"
@@ -147,6 +159,20 @@ def tracked_job(world, name):
 def enabled_env(world, kinds=("start", "finish_ok", "finish_fail", "timeout", "cancel", "forget")):
     """Environment actions on the *tracked* job of each target (superseded jobs are left alone: they only add
     states that gwf cannot distinguish)."""
+    if world.backend() == "local":
+        acts = []
+        for t in world.pool["summary"]["tasks"]:
+            if t["alive"]:
+                if t["killed"]:
+                    acts.append(("penv", "exit", t["name"], -9))
+                else:
+                    if "finish_ok" in kinds:
+                        acts.append(("penv", "exit", t["name"], 0))
+                    if "finish_fail" in kinds:
+                        acts.append(("penv", "exit", t["name"], 1))
+        if world.pool["summary"]["timers"]:
+            acts.append(("penv", "timer"))
+        return acts
     sim = simsched.Sim(world.sim)
     acts = []
     for t in world.wf.targets:
@@ -184,6 +210,17 @@ def apply_action(world, action, session=None):
             clock = w2.clock() + 1
             for o in w2.wf.by_name(name).flat("outputs"):
                 w2.files[o] = (clock, f"{name}#{j['id']}")
+        return w2, None
+    if kind == "penv" or kind == "prestart":
+        from mc import localbridge
+
+        op = ["restart"] if kind == "prestart" else list(action[1:])
+        _, w2.pool, logs = localbridge.with_live(w2.pool, lambda live: live.apply(op))
+        w2.logs.update(logs)  # the pool writes <task>.stdout/.stderr when a process ends
+        if kind == "penv" and action[1] == "exit" and action[3] == 0 and action[2] in w2.wf.names():
+            clock = w2.clock() + 1
+            for o in w2.wf.by_name(action[2]).flat("outputs"):
+                w2.files[o] = (clock, f"{action[2]}#pool")
         return w2, None
     if kind == "carry_out_cancels":
         simsched.Sim(w2.sim).carry_out_cancels()
